@@ -30,6 +30,21 @@ CLAIMED = {
  'C18': dict(world='IO+TABLE', tech='deterministic simulation: TRACE requests inside seeded table histories with/without WithTrace; Trace helper on a simulated connection (wire snapshot at WriteHeader) fed by a short-read body stream',
              text='With a TRACE component configured, TRACE to live, removed, never-registered, * and hostile paths must reach that component wrapped in exactly the Use stack, every Allow set / Routes() entry lists TRACE and Handle(…, TRACE) is rejected; without it TRACE is an ordinary method. The bundled helper is run on a simulated connection that snapshots the headers at WriteHeader, with the request body served in seeded short/zero reads: 200, Content-Type on the wire, escaped dump, body iff asked.',
              note='simulated connection emulates net/http header commit semantics', ref='§5 C18'),
+ 'C05': dict(world='TABLE+GROUP', tech='deterministic simulation: hostile-client and careless-operator tasks (arbitrary bytes as method/path/Host/Accept/pattern/Remove argument) inside seeded histories on a router, a group, a Hosts matcher and version matchers; recover() monitor',
+             text='Hostile requests and garbage administrative calls are issued in the middle of seeded Handle/Remove/Clean histories; a panic escaping ServeHTTP / Match while no simulated user component panicked, a CallFunc receiving the zero handler, a panicking CheckSyntax/URL, or a Handle that fails with a runtime.Error instead of an error value is a violation; without interceptors Handle must agree with CheckSyntax.',
+             note='the byte-string generators are ordinary input generation; the simulation contributes the histories in which they arrive', ref='§5 C05'),
+ 'C09': dict(world='TABLE+GROUP', tech='deterministic simulation: seeded op-level interleavings of Use / Prefix / nested Prefix / Resource / Handle / Group.Use / Group.New / Group.Add issued by several admin tasks; onion-order model evaluated at request time (trace) and at wrap time (factory-call multiset)',
+             text='Every middleware is a simulated component with a unique tag; after every step every handler kind of every live pattern (each method, automatic HEAD, OPTIONS, 405) plus 404, TRACE, OPTIONS * and the group not-found handler is invoked and its outermost-first tag trace compared with the documented order, and the factory-call log must contain exactly one call per wrapped handler with the documented (method, pattern, router) arguments.',
+             note='onion model written from router.go:106-114 / types.go:112-128; the one ordering the text leaves open (router with own Use added later to a group with Use) is not generated', ref='§5 C09'),
+ 'C13': dict(world='GROUP', tech='deterministic simulation: seeded Add/New/Remove/Use histories on a Group whose matchers are Hosts / path-version / header-version / And / Or nests and simulated matcher components; reference "first acceptor on the original request" + stand-alone twin group',
+             text='For every request the reference evaluates each router\'s matcher, in Add order, on a fresh copy of the request as originally received; the group\'s answer (status, handler, parameters incl. matcher-captured ones, path seen, router name, middleware trace) must equal the answer of a stand-alone twin containing only that router, or the group not-found component wrapped in the group\'s Use stack when nobody accepts.',
+             note='matchers themselves are real code and are used by the reference on copies (their own correctness is C14/C15); simulated matchers obey the Matcher contract', ref='§5 C13'),
+ 'C14': dict(world='GROUP', tech='deterministic simulation: seeded Add/Delete/RegisterInterceptor histories with random letter case on a Hosts matcher, probed with generated Host strings; lower-cased domain-set model + the C02 reference resolver; outcomes of other domains re-checked after every Delete',
+             text='Hosts.Match must accept exactly when the independently normalised host resolves against the lower-cased set of registered domains under the reference resolver, leave exactly that pattern\'s parameters in the context (none on rejection), and every earlier probe of another domain must keep its outcome after any Delete, whatever letter case Add/Delete were called with.',
+             note='after the first Delete only simple parameter values are probed (removal leaves split nodes split)', ref='§5 C14'),
+ 'C19': dict(world='TABLE (twin)', tech='deterministic simulation of twin worlds driven by one seed: a program of facade calls (named Prefix / nested Prefix / Resource objects, Handle, Remove, Clean, URL, Use) and its desugaring into plain Router calls, same op interleaving; observation-log equality after every step',
+             text='World F executes the facade program, world D its translation into Router.Handle/Remove/URL with concatenated patterns and middleware lists; after every step Routes(), the dispatch outcome, Allow set and middleware trace of every method on every witness, 404 / OPTIONS * / TRACE, URL results, the factory-call multiset and whether the step panicked must be equal.',
+             note='Prefix.Clean has no Router counterpart: D removes exactly the model\'s patterns that start with the prefix', ref='§5 C19'),
 }
 
 NOT_APPLICABLE = {
